@@ -123,14 +123,42 @@ class KeyFlow:
         return r
 
     def key_stashes(self) -> Set[str]:
-        """Attributes / names that receive the key read from the config (e.g. self._wandb_api_key)."""
+        """Attributes / names that receive the key read from the config (e.g. self._wandb_api_key), directly, by copying
+        another stash, or from a method of the class that returns it.  Attributes are listed as `self.x`, locals as
+        `<function>::name` (a local of that name in another method is something else)."""
+        if getattr(self, "_stashes", None) is not None:
+            return self._stashes
         out: Set[str] = set()
-        for fi in self.ci.methods.values():
-            roots = self.roots(fi)
-            for n in walk_function(fi.node):
-                if isinstance(n, ast.Assign) and len(n.targets) == 1 and self.reads_key(fi, n.value, roots, top=True):
-                    out.add(norm(n.targets[0]))
+        self._stashes = out
+        self.returners: Set[str] = set()
+        changed = True
+        while changed:
+            changed = False
+            for fi in self.ci.methods.values():
+                roots = self.roots(fi)
+                for n in walk_function(fi.node):
+                    if isinstance(n, ast.Assign) and len(n.targets) == 1 and isinstance(n.targets[0], (ast.Name, ast.Attribute)) and self.yields_key(fi, n.value, roots):
+                        k = self.stash_key(fi, n.targets[0])
+                        if k not in out:
+                            out.add(k)
+                            changed = True
+                    if isinstance(n, ast.Return) and n.value is not None and self.yields_key(fi, n.value, roots) and fi.qualname not in self.returners:
+                        self.returners.add(fi.qualname)
+                        changed = True
         return out
+
+    @staticmethod
+    def stash_key(fi: FunctionInfo, t: ast.AST) -> str:
+        return f"{fi.qualname}::{t.id}" if isinstance(t, ast.Name) else norm(t)
+
+    def is_stash(self, fi: FunctionInfo, e: ast.AST) -> bool:
+        return isinstance(e, (ast.Name, ast.Attribute)) and self.stash_key(fi, e) in self.key_stashes()
+
+    def yields_key(self, fi: FunctionInfo, e: ast.AST, roots) -> bool:
+        """`e` is exactly the key: a read of it from the config, a stash, or a call of a method that returns it."""
+        if self.reads_key(fi, e, roots, top=True) or (isinstance(e, (ast.Name, ast.Attribute)) and self.stash_key(fi, e) in self._stashes):
+            return True
+        return isinstance(e, ast.Call) and self.prog.resolve_call(fi, e) in self.returners
 
     def reads_key(self, fi: FunctionInfo, e: ast.AST, roots, top: bool = False) -> bool:
         """Is `e` (exactly, if top) an expression that yields the API key?"""
@@ -244,7 +272,7 @@ class KeyFlow:
                     x, neg = t.left, True
                 if x is None and isinstance(t, (ast.Attribute, ast.Name)):
                     x, neg = t, True  # truthiness: false edge = None or ''
-                if x is not None and (norm(x) in stashes or self.reads_key(fi, x, roots, top=True)):
+                if x is not None and (self.is_stash(fi, x) or self.reads_key(fi, x, roots, top=True)):
                     none_edge = "false" if neg else "true"
                     if none_edge in labels and "exc" not in labels:
                         return frozenset({M}) if s else s  # no key present: nothing to leak
@@ -273,12 +301,16 @@ def check_mask(prog: Program, res: Result) -> None:
     # C19-private: who may read the key
     stashes = kf.key_stashes()
     n_reads = 0
+    live = {f.qualname for f in prog.all_functions()}
     for fi in ci.methods.values():
+        if fi.qualname not in live:
+            continue   # an absorbed helper is judged inside its caller
         roots = kf.roots(fi)
         for n in walk_function(fi.node):
-            is_stash_load = isinstance(n, (ast.Attribute, ast.Name)) and isinstance(n.ctx, ast.Load) and norm(n) in stashes
+            is_stash_load = isinstance(n, (ast.Attribute, ast.Name)) and isinstance(n.ctx, ast.Load) and kf.is_stash(fi, n)
             is_key_read = kf.reads_key(fi, n, roots, top=True) and not (isinstance(n, (ast.Attribute, ast.Subscript)) and isinstance(n.ctx, ast.Store))
-            if not (is_stash_load or is_key_read):
+            is_key_call = isinstance(n, ast.Call) and prog.resolve_call(fi, n) in kf.returners
+            if not (is_stash_load or is_key_read or is_key_call):
                 continue
             par = getattr(n, "_parent", None)
             ok = False
@@ -286,8 +318,10 @@ def check_mask(prog: Program, res: Result) -> None:
             if isinstance(par, ast.keyword) and par.arg == "key":
                 call = par._parent
                 ok = isinstance(call, ast.Call) and prog.resolve_call(fi, call) == "wandb.login"
-            elif isinstance(par, ast.Assign) and par.value is n and is_key_read:
-                ok = True  # the stash itself
+            elif isinstance(par, ast.Assign) and par.value is n and len(par.targets) == 1 and kf.is_stash(fi, par.targets[0]):
+                ok = True  # the stash itself / a copy into another stash (whose reads are judged the same way)
+            elif isinstance(par, ast.Return) and par.value is n and fi.cls is ci and fi.name.startswith("_"):
+                ok = True  # a private method handing the key to its caller, where the call is judged as a read of the key
             elif isinstance(par, ast.Compare) or isinstance(par, (ast.If, ast.BoolOp, ast.UnaryOp)):
                 ok = True  # guard
             n_reads += 1
